@@ -27,13 +27,25 @@ def takeRun (t : Str) : List R → List Fields × List R
   | l => ([], l)
 
 
+/-- the maximal run of lines of the repeated keyword `k` at the head of the items: their values and the rest -/
+def takeLines (k : Str) : List R → List J × List R
+  | .adict kvs :: r =>
+    match attrParts kvs with
+    | .ok (k', v, _) => if k' = k then ((takeLines k r).1 |> (v :: ·), (takeLines k r).2) else ([], .adict kvs :: r)
+    | .error _ => ([], .adict kvs :: r)
+  | l => ([], l)
+
 /-- read the items of one level back into dictionary entries (fuel = number of items) -/
 def readEntries (S Rp : List Str) : Nat → List R → Option Fields
   | _, [] => some []
   | 0, _ :: _ => none
   | n + 1, .adict kvs :: rest =>
     match attrParts kvs with
-    | .ok (k, v, _) => if plainB Rp k then (readEntries S Rp n rest).map ((k, v) :: ·) else none
+    | .ok (k, v, _) =>
+      if plainB Rp k then (readEntries S Rp n rest).map ((k, v) :: ·)
+      else if k != s%"config" && k != s%"points" && Rp.contains k then
+        (readEntries S Rp n (takeLines k rest).2).map ((k, .list (v :: (takeLines k rest).1)) :: ·)
+      else none
     | .error _ => none
   | n + 1, .cdict sub :: rest =>
     match typeOfF sub with
